@@ -12,4 +12,4 @@ for prop in "$@"; do
 done
 rm -rf $S
 TAG=$(python3 -c "import hashlib,sys;print(hashlib.sha1(sys.argv[1].encode()).hexdigest()[:8])" $S)
-rm -rf /verif/build/native_$TAG /verif/build/dnative_$TAG
+rm -rf /verif/build/native_$TAG /verif/build/dnative_$TAG /verif/build/kani/$TAG
